@@ -26,6 +26,10 @@ Exp(w) ==
     [] k[1] = "wait" -> [known |-> ev[k[2]].trig, t |-> Max2(w.t, ev[k[2]].t), ok |-> ev[k[2]].ok, v |-> <<ev[k[2]].v>>, amb |-> FALSE]
     [] k[1] = "proc" -> [known |-> pend[k[2]].done, t |-> Max2(w.t, pend[k[2]].t), ok |-> TRUE, v |-> <<pend[k[2]].v>>, amb |-> FALSE]
     [] k[1] = "all" -> [known |-> TRUE, t |-> w.t + Max2(k[2], k[3]), ok |-> TRUE, v |-> <<Min2(k[2], k[3]) + 5, Max2(k[2], k[3]) + 5>>, amb |-> FALSE]
+    \* the same event listed twice in one condition
+    [] k[1] = "dall" -> [known |-> TRUE, t |-> w.t + Max2(k[2], k[3]), ok |-> TRUE, amb |-> FALSE,
+                        v |-> IF k[2] <= k[3] THEN <<k[2] + 5, k[2] + 5, k[3] + 5>> ELSE <<k[3] + 5, k[2] + 5, k[2] + 5>>]
+    [] k[1] = "dwait" -> [known |-> ev[k[2]].trig, t |-> Max2(w.t, ev[k[2]].t), ok |-> ev[k[2]].ok, v |-> <<ev[k[2]].v, ev[k[2]].v>>, amb |-> FALSE]
     [] k[1] = "nest" ->     \* (timeout(a) | timeout(b)) & timeout(c)
          [known |-> TRUE, t |-> w.t + Max2(Min2(k[2], k[3]), k[4]), ok |-> TRUE, v |-> <<>>, amb |-> FALSE]
     [] k[1] = "nest2" ->    \* (timeout(a) & timeout(b)) | timeout(c)
@@ -102,7 +106,12 @@ Step ==
                ELSE IF until > 10 /\ ~ev[until - 10].trig /\ e.out.k = "ok" THEN Fail("C18.until_not_triggered")
                ELSE IF e.out.k = "exc" /\ e.out.cls \notin {"EvFail", "RuntimeError"} THEN Fail("C18.run_failed")
                ELSE IF e.out.k = "exc" /\ e.out.cls = "RuntimeError" /\ ~(until > 10 /\ ~ev[until - 10].trig) THEN Fail("C18.run_failed")
-               ELSE IF e.out.k = "ok" /\ ev[1].trig /\ ~ev[1].ok /\ ~e.waiters1 /\ until = 0 THEN Fail("C18.unhandled_failure_swallowed")
+               ELSE IF e.out.k = "ok" /\ ev[1].trig /\ ~ev[1].ok /\ ~e.waiters1 /\ until = 0 /\ ~F(Traces[tid][1], "defuse", FALSE)
+                    THEN Fail("C18.unhandled_failure_swallowed")
+               \* a failure that a callback of the event has taken care of (defused) does not end the run
+               ELSE IF e.out.k = "exc" /\ e.out.cls = "EvFail" /\ F(Traces[tid][1], "defuse", FALSE)
+                       /\ ~\E i \in 1..(l - 1) : Traces[tid][i].e = "res" /\ Traces[tid][i].how = "intr"
+                    THEN Fail("C18.handled_failure_raised")
                \* a process left waiting for something that has happened
                ELSE IF e.out.k = "ok" /\ until = 0 /\ \E q \in Ps : wait[q].on /\ Exp(wait[q]).known /\ wait[q].k[1] \in {"wait", "proc"}
                     THEN Fail("C18.waiter_not_resumed")
